@@ -1255,6 +1255,14 @@ func (w *world) exec(op string) (res string) {
 		if len(f) < 2 || w.alias() {
 			return "bad-op"
 		}
+		// threads: what each goroutine does - ONE notifier call, or (w-s11f) ONE AddHosts call `addhosts:<id>+<id>+...`
+		// (AddHost per host, in order, for a policy without the method: what Session.init does); calls: the same flattened
+		// to one record per host (an AddHosts call counts as AddHost of each of its hosts)
+		type thread struct {
+			call string
+			ids  []int
+		}
+		var threads []thread
 		var calls []burstCall
 		for _, c := range f[1:] {
 			p := strings.SplitN(c, ":", 2)
@@ -1263,19 +1271,30 @@ func (w *world) exec(op string) (res string) {
 			}
 			switch p[0] {
 			case "add", "remove", "hup", "hdown":
+				if _, ok := w.hosts[atoi(p[1])]; !ok {
+					return "bad-op"
+				}
+				threads = append(threads, thread{p[0], []int{atoi(p[1])}})
+				calls = append(calls, burstCall{p[0], atoi(p[1])})
+			case "addhosts":
+				th := thread{call: "addhosts"}
+				for _, x := range strings.Split(p[1], "+") {
+					if _, ok := w.hosts[atoi(x)]; !ok {
+						return "bad-op"
+					}
+					th.ids = append(th.ids, atoi(x))
+					calls = append(calls, burstCall{"add", atoi(x)})
+				}
+				threads = append(threads, th)
 			default:
 				return "bad-op"
 			}
-			if _, ok := w.hosts[atoi(p[1])]; !ok {
-				return "bad-op"
-			}
-			calls = append(calls, burstCall{p[0], atoi(p[1])})
 		}
 		w.lastPlain = nil
 		w.epoch++
 		var arrived, finished int32
 		var wg sync.WaitGroup
-		panics := make([]string, len(calls))
+		panics := make([]string, len(threads))
 		var openGate func()
 		if gate != nil {
 			for _, c := range calls {
@@ -1285,9 +1304,9 @@ func (w *world) exec(op string) (res string) {
 			}
 			openGate = gocql.VerifHostGate(gate)
 		}
-		for i, c := range calls {
+		for i, c := range threads {
 			wg.Add(1)
-			go func(i int, c burstCall) {
+			go func(i int, c thread) {
 				defer wg.Done()
 				defer atomic.AddInt32(&finished, 1)
 				defer func() {
@@ -1295,10 +1314,14 @@ func (w *world) exec(op string) (res string) {
 						panics[i] = fmt.Sprint(r)
 					}
 				}()
-				h := w.hosts[c.id]
+				h := w.hosts[c.ids[0]]
+				var hs []*gocql.HostInfo
+				for _, id := range c.ids {
+					hs = append(hs, w.hosts[id])
+				}
 				// barrier: every goroutine spins until all have arrived (event order only, no clock)
 				atomic.AddInt32(&arrived, 1)
-				for atomic.LoadInt32(&arrived) < int32(len(calls)) {
+				for atomic.LoadInt32(&arrived) < int32(len(threads)) {
 					runtime.Gosched()
 				}
 				switch c.call {
@@ -1310,6 +1333,14 @@ func (w *world) exec(op string) (res string) {
 					w.pol.HostUp(h)
 				case "hdown":
 					w.pol.HostDown(h)
+				case "addhosts":
+					if v, ok := w.pol.(interface{ AddHosts([]*gocql.HostInfo) }); ok {
+						v.AddHosts(hs)
+					} else {
+						for _, x := range hs {
+							w.pol.AddHost(x)
+						}
+					}
 				}
 			}(i, c)
 		}
@@ -1318,7 +1349,7 @@ func (w *world) exec(op string) (res string) {
 			// runtime; the bound of 200 polls only limits the wait, no verdict depends on it)
 			for poll := 0; poll < 200; poll++ {
 				fin := int(atomic.LoadInt32(&finished)) // read BEFORE the goroutine states: no call is counted twice
-				if atomic.LoadInt32(&arrived) == int32(len(calls)) && fin+parkedInGocql() >= len(calls) {
+				if atomic.LoadInt32(&arrived) == int32(len(threads)) && fin+parkedInGocql() >= len(threads) {
 					break
 				}
 				time.Sleep(100 * time.Microsecond)
@@ -2321,7 +2352,9 @@ func (g *gen) burstScenario(idx, rounds int) {
 		if burstNo%2 == 1 {
 			inBurst := map[int]bool{}
 			for _, c := range calls {
-				inBurst[atoi(c[strings.Index(c, ":")+1:])] = true
+				for _, x := range strings.Split(c[strings.Index(c, ":")+1:], "+") {
+					inBurst[atoi(x)] = true
+				}
 			}
 			var cand []int
 			for id := 1; id <= g.n; id++ {
@@ -2345,14 +2378,14 @@ func (g *gen) burstScenario(idx, rounds int) {
 			// routed queries whose replica lists start at hosts of the burst (token of host id = id*10), and a random one
 			for i, c := range calls {
 				if i < 3 {
-					g.pickWith("0", c[strings.Index(c, ":")+1:]+"0", 1000, true)
+					g.pickWith("0", strings.Split(c[strings.Index(c, ":")+1:], "+")[0]+"0", 1000, true)
 				}
 			}
 			g.pickWith("0", strconv.Itoa(r.Intn(g.n*10)), 1000, true)
 			g.pickWith("1", strconv.Itoa(r.Intn(g.n*10)), 1000, true)
 			if len(calls) > 0 {
 				c := calls[0]
-				g.pickWith("1", c[strings.Index(c, ":")+1:]+"0", 1000, true)
+				g.pickWith("1", strings.Split(c[strings.Index(c, ":")+1:], "+")[0]+"0", 1000, true)
 			}
 		}
 	}
@@ -2383,6 +2416,14 @@ func (g *gen) burstScenario(idx, rounds int) {
 		switch (idx + round) % 8 {
 		case 0, 4: // nodes joining at once
 			if c := calls("add", choose(k, base+1, g.n, unknown)); len(c) >= 2 {
+				// (w-s11f) every other time some of them arrive in ONE AddHosts call that overlaps the single calls
+				if len(c) >= 3 && (idx+round)%8 == 4 {
+					var ids []string
+					for _, x := range c[:len(c)/2+1] {
+						ids = append(ids, x[strings.Index(x, ":")+1:])
+					}
+					c = append([]string{"addhosts:" + strings.Join(ids, "+")}, c[len(c)/2+1:]...)
+				}
 				burst("join", c)
 			} else {
 				burst("leave", calls("remove", choose(k, base+1, g.n, known)))
